@@ -84,6 +84,11 @@ func (g *cacheReqGenerator) GenerateRequests(ctx context.Context, r *scan.Range)
 	go func() {
 		defer close(result)
 		for request := range requests {
+			// keep the original cause of a request that already carries an error
+			if request.Err != nil {
+				result <- request
+				continue
+			}
 			if mac := g.getMAC(request.DstIP); mac != nil {
 				request.DstMAC = mac
 			} else {
